@@ -19,3 +19,19 @@ package evm
 //@   before[C19.isd.set]   SetAccount requires defined(res_SetSequence_0)
 //@ loop #1
 //@   invariant true
+
+// C19 (a transaction below the minimum gas price is rejected at no cost): the fee compared with minimum-price x gas
+// limit is the fee the transaction actually pays - for dynamic-fee (non-legacy) transactions the EFFECTIVE fee at the
+// block's base fee, not the fee cap - and a message goes on only if that fee is not below the required one.
+//@ func (EthMinGasPriceDecorator).AnteHandle#next
+//@   flag assumed
+//@   modifies state(ctx), trace
+
+//@ func (EthMinGasPriceDecorator).AnteHandle
+//@   flag noframe
+//@   flag pure=GetParams,IsZero,GetChainConfig,EthereumConfig,ChainID,GetBaseFee,GetMsgs,GetFee,UnpackTxData,TxType,GetEffectiveFee,GetGas,SetUint64,NewDecFromBigInt,Mul,LT,Wrapf,TruncateInt,String
+//@   before[C19.mgp.effective] GetEffectiveFee requires res_TxType_0 != 0
+//@   before[C19.mgp.compared]  NewDecFromBigInt requires defined(res_TxType_0) ==> (res_TxType_0 != 0 ==> defined(res_GetEffectiveFee_0))
+//@ loop #1
+//@   invariant true
+//@   step[C19.mgp.enough] !res_LT_0
